@@ -44,3 +44,20 @@ HARNESSES.update({
         bound='40-byte buffer tiled by three tags of symbolic size and content; clone after 0..=4 steps; 5 further steps',
         functions=['TagIter::new', 'TagIter::next', 'TagIter::clone'], props=['C03']),
 })
+
+ELF = dict(crate='multiboot2', features=None, file='elf_sections.rs')
+HARNESSES.update({
+    'k_elf32_entry_decode': dict(ELF, kind='full', bound='all 40 entry bytes symbolic; loop-free, complete',
+        functions=['ElfSection::get', 'section_type', 'section_type_raw', 'flags', 'start_address', 'size', 'addralign', 'end_address', 'is_allocated'], props=['C19', 'C20', 'C01']),
+    'k_elf64_entry_decode': dict(ELF, kind='full', bound='all 64 entry bytes symbolic; loop-free, complete',
+        functions=['ElfSection::get', 'section_type', 'section_type_raw', 'flags', 'start_address', 'size', 'addralign', 'is_allocated'], props=['C19', 'C20', 'C01']),
+    'k_elf_entry_size_rejected': dict(ELF, kind='full', bound='every u32 entry size; loop-free', functions=['ElfSection::get'], props=['C19'], allow=['assert', 'panic']),
+    'k_elf_iter_order_64': dict(ELF, kind='bounded', bound='three 64-byte entries, all bytes symbolic', functions=['ElfSectionIter::next'], props=['C19', 'C01']),
+    'k_elf_iter_order_32': dict(ELF, kind='bounded', bound='three 40-byte entries, all bytes symbolic', functions=['ElfSectionIter::next', 'ElfSection::addralign'], props=['C19', 'C01']),
+})
+
+HARNESSES.update({
+    'k_builder_inforeq_odd_then_entry': dict(crate='multiboot2-header', features=None, file='builder.rs', kind='bounded',
+        bound='information request with one symbolic request (padding residue 4) + entry tag, both architectures',
+        functions=['Builder::build', 'InformationRequestHeaderTag::new', 'Multiboot2Header::load', 'iter'], props=['C12']),
+})
